@@ -427,3 +427,32 @@ def strip_context(src, r):
     if "$l" in body:
         ctx += "label $l | "
     return ctx + body
+
+
+# ---------------------------------------------------------------------------
+# C11: the value universe (every type and nesting shape; integers of any size; dyadic fractions below 2^53)
+
+def order_universe(size=200):
+    scal = [None, False, True, 0, 1, -1, 2, 10, -10, 100, 2 ** 31, 2 ** 53 - 1, 2 ** 53, 2 ** 53 + 1, -(2 ** 53) - 1, 2 ** 63 - 1, 2 ** 63, -(2 ** 63), -(2 ** 63) - 1,
+            2 ** 64 + 1, -(2 ** 70), 10 ** 30, 10 ** 30 + 1, 0.5, -0.5, 1.5, 2.25, -2.75, 0.125, 1023.5, 9.5, 10.5,
+            "", "a", "A", "ab", "b", "aa", "é", "日本", "\u0000", "a\u0000", "~", " ", "10", "9", "\U0001F600", "é", "z"]
+    arrs = [[], [None], [[]], [1], [1, 2], [2, 1], [1, [2]], ["a"], [[], []], [{}], [1, 1], [1.5], [False], [True, None], [0], [[1]], [[1], 0], [1, 2, 3], [1, 2, 2], ["a", 1],
+            [None, None], [2 ** 64 + 1], [[[]]], [{"a": 1}], [{"a": 1}, 2], ["", ""], [0.5, 1]]
+    objs = [{}, {"a": 1}, {"a": 2}, {"b": 1}, {"a": 1, "b": 2}, {"a": 1, "b": 1}, {"a": {"b": 1}}, {"": 0}, {"a": None}, {"a": [1]}, {"é": 1}, {"a": 1, "c": 0}, {"b": 0, "c": 0},
+            {"A": 1}, {"aa": 1}, {"a": {}}, {"a": []}, {"a": "a"}, {"a": 1.5}, {"a": 2 ** 64 + 1}, {"a": False}, {"a": True}, {"a": {"a": {"a": 1}}}, {"a": 1, "b": {"c": 2}}, {"10": 1, "9": 1}]
+    vals = scal + arrs + objs
+    # nested combinations to reach the requested size (deterministic)
+    base = list(vals)
+    k = 0
+    for a in base:
+        for b in base[(k * 13) % 17::29]:
+            if len(vals) >= size:
+                break
+            for cand in ([a, b], {"k": a}, {"a": a, "b": b}, [[a], b]):
+                if cand not in vals and len(vals) < size:
+                    vals.append(cand)
+            k += 1
+    return [V(x) for x in vals[:size]]
+
+
+SUB_UNIVERSE = [None, True, 1, 1.5, "a", [], [1], {"a": 1}]
